@@ -196,9 +196,8 @@ func c13Exec(s map[string]string) map[string]any {
 	return ev
 }
 
-func C13(c *core.Ctx) {
-	c.Rule = "case = one geometry tuple of PartIO.tla (GPT/MBR x start class incl. start*sector >= 2^32 and start = 2^32-1 sectors x size x logical 512/4096 x physical 512/4096 (pss != lss) x reader length {0,size-1,size,size+1} x chunking {whole,1 byte,513,pss+1}), all tuples within MaxDev deviations of the base tuple (quick 3, thorough 7 = full product), enumerated by TLC; every tuple is non-trivial (distinct key = tuple)"
-	c.Assumptions = []string{"sparse pattern-filled memdev; byte counts are decimal strings for TLC", "CopyPartitionRaw is exercised with a target at least as large as the source"}
+// c13Events enumerates the geometry tuples with TLC and executes them (shared with C03).
+func c13Events(c *core.Ctx) (tuples []map[string]string, events []map[string]any, ok bool) {
 	maxDev := 3
 	if c.Tier == "thorough" {
 		maxDev = 7
@@ -207,12 +206,12 @@ func C13(c *core.Ctx) {
 	gen, err := tlc.Run(tlc.Opts{Module: "PartIO_Gen", Config: "gen.cfg", Workers: 1, Files: map[string][]byte{"gen.cfg": []byte(cfg)}, Timeout: 15 * time.Minute})
 	if err != nil || !gen.OK {
 		c.Broken("PartIO_Gen: %v", err)
-		return
+		return nil, nil, false
 	}
 	c.States, c.Transitions = gen.Distinct, gen.Generated
 	c.Exhaustive = true
 	seen := map[string]bool{}
-	var tuples []map[string]string
+	tuples = nil
 	for _, l := range gen.Beh {
 		if seen[l] {
 			continue
@@ -221,13 +220,23 @@ func C13(c *core.Ctx) {
 		var t map[string]string
 		if json.Unmarshal([]byte(l), &t) != nil {
 			c.Broken("bad tuple %s", l)
-			return
+			return nil, nil, false
 		}
 		tuples = append(tuples, t)
 	}
 	sort.Slice(tuples, func(i, j int) bool { return fmt.Sprint(tuples[i]) < fmt.Sprint(tuples[j]) })
-	events := make([]map[string]any, len(tuples))
+	events = make([]map[string]any, len(tuples))
 	parallel(len(tuples), func(i int) { events[i] = c13Exec(tuples[i]) })
+	return tuples, events, true
+}
+
+func C13(c *core.Ctx) {
+	c.Rule = "case = one geometry tuple of PartIO.tla (GPT/MBR x start class incl. start*sector >= 2^32 and start = 2^32-1 sectors x size x logical 512/4096 x physical 512/4096 (pss != lss) x reader length {0,size-1,size,size+1} x chunking {whole,1 byte,513,pss+1}), all tuples within MaxDev deviations of the base tuple (quick 3, thorough 7 = full product), enumerated by TLC; every tuple is non-trivial (distinct key = tuple)"
+	c.Assumptions = []string{"sparse pattern-filled memdev; byte counts are decimal strings for TLC", "CopyPartitionRaw is exercised with a target at least as large as the source"}
+	tuples, events, ok := c13Events(c)
+	if !ok {
+		return
+	}
 	var trace bytes.Buffer
 	for i, ev := range events {
 		js, _ := json.Marshal(ev)
